@@ -34,7 +34,7 @@ func (m *Machine) Run(t *rapid.T, weights map[string]int, minSteps, maxSteps int
 		"rename":       func() { m.OpRename(t) },
 		"importKey":    func() { m.OpImportKey(t) },
 		"importScript": func() { m.OpImportScript(t) },
-		"setSynced":    func() { m.OpSetSyncedTo(t) },
+		"setSynced":    func() { m.OpSetSyncedTo(t, fate()) },
 		"newScope":     func() { m.OpNewScope(t) },
 		"restart": func() {
 			m.Case.Logf("restart")
@@ -56,6 +56,7 @@ func (m *Machine) Run(t *rapid.T, weights map[string]int, minSteps, maxSteps int
 	for i := 0; i < steps; i++ {
 		name := rapid.SampledFrom(names).Draw(t, "op")
 		ops[name]()
+		m.checkLockedMemory(name)
 		check(name)
 	}
 }
